@@ -7,9 +7,11 @@ package main
 // small product functions are folded recursively up to a depth bound.
 
 import (
+	"fmt"
 	"go/constant"
 	"go/token"
 	"go/types"
+	"sort"
 	"strings"
 
 	"golang.org/x/tools/go/ssa"
@@ -82,11 +84,17 @@ func (f *Folder) eval(fn *ssa.Function, args []cval, depth int) []Outcome {
 	}
 	work := []frame{{fn.Blocks[0], nil, env}}
 	visits := map[*ssa.BasicBlock]int{}
+	seenState := map[string]bool{}
 	for len(work) > 0 {
 		fr := work[len(work)-1]
 		work = work[:len(work)-1]
+		sk := stateKey(fr.b, fr.pred, fr.env)
+		if seenState[sk] {
+			continue
+		}
+		seenState[sk] = true
 		visits[fr.b]++
-		if visits[fr.b] > 600 {
+		if visits[fr.b] > 5000 {
 			f.Over = true
 			continue
 		}
@@ -172,6 +180,29 @@ func (f *Folder) eval(fn *ssa.Function, args []cval, depth int) []Outcome {
 		}
 	}
 	return outs
+}
+
+// stateKey identifies an evaluation state by block, incoming edge and the
+// known part of the environment restricted to values that can still matter:
+// values defined in blocks that do not strictly dominate b may be re-defined,
+// but their current content decides phis and branches, so all known values
+// are included.
+func stateKey(b, pred *ssa.BasicBlock, env fenv) string {
+	parts := make([]string, 0, len(env))
+	for v, c := range env {
+		switch {
+		case c.known:
+			parts = append(parts, v.Name()+"="+c.v.ExactString())
+		case c.isNil:
+			parts = append(parts, v.Name()+"=nil")
+		}
+	}
+	sort.Strings(parts)
+	pi := -1
+	if pred != nil {
+		pi = pred.Index
+	}
+	return fmt.Sprintf("%d<%d|%s", b.Index, pi, strings.Join(parts, ","))
 }
 
 func (f *Folder) assume(v ssa.Value) (cval, bool) {
@@ -331,11 +362,21 @@ func (f *Folder) call(env fenv, x *ssa.Call, depth int) cval {
 		return unknownVal
 	}
 	id := sc.String()
+	switch id {
+	case "(time.Duration).Nanoseconds":
+		if len(cc.Args) == 1 {
+			return f.val(env, cc.Args[0])
+		}
+	}
 	switch {
 	case id == "fmt.Errorf", id == "errors.New", strings.HasSuffix(id, "stderror.WrapErrorWithType"):
 		return cval{nonNil: true}
 	}
-	if !inProductFn(sc) || sc.Blocks == nil || depth >= f.MaxDepth {
+	if !inProductFn(sc) || sc.Blocks == nil || depth >= f.MaxDepth || len(sc.Blocks) > 40 {
+		return unknownVal
+	}
+	switch relPkg(sc) {
+	case "pkg/log", "pkg/metrics", "pkg/stderror":
 		return unknownVal
 	}
 	if sc.Signature.Results().Len() != 1 {
